@@ -33,7 +33,7 @@ CONSTANTS Conns,      \* connections the environment may use
 
 Tests   == {"Test01", "Test02", "Test03", "Test04", "Test05", "Test06", "Test07", "Test08", "Test09", "Test10", "Test11"}
 Methods == {"Start", "End", "Nope"} \cup Tests
-Flags   == {"none", "more", "oneway"}
+Flags   == {"none", "more", "oneway", "upgrade"}     \* upgrade: the handlers do not look at it; the connection goes on carrying calls
 NoArgs  == {"Start", "End", "Nope", "Test01"}
 (* id references: k >= 1 the k-th id issued; 0 an id never issued; -1 the member is absent; -2 it is not a string *)
 (* argument classes: good = exactly the expected values; bad = one of them differs; absent = the members are    *)
